@@ -121,6 +121,25 @@ pub fn run_c06(out: &mut Out, tier: &str, seed: u64) {
                 // mode cross-overs: a pure signature must not verify as pre-hashed and vice versa
                 if !d_verify_ph(&chunks, &sig, &pk).is_err() { out.hit("sign.ph.verify-accepts-pure-signature", format!("len {}", len), json!({"op":"sign.verify_ph","pk":hx(&pk),"msg":hx(&m),"sig":hx(&sig)})); }
                 if !d_verify(&lph, &m, &pk).is_err() { out.hit("sign.verify-accepts-prehashed-signature", format!("len {}", len), json!({"op":"sign.verify_detached","pk":hx(&pk),"msg":hx(&m),"sig":hx(&lph)})); }
+                // the object API's incremental signer: libsodium's pre-hashed signature; verification accepts it, and rejects
+                // (never panics on) signatures and public keys held in Vecs of the wrong length
+                {
+                    use dryoc::sign::IncrementalSigner;
+                    out.search_evaluations += 10;
+                    let feed = |s: &mut IncrementalSigner| { s.update(&chunks[0].to_vec()); s.update(&chunks[1].to_vec()); };
+                    let fin = guard(|| { let mut s = IncrementalSigner::new(); feed(&mut s); let sg: StackByteArray<64> = s.finalize(&StackByteArray::<64>::from(&lsk))?; Ok::<_, dryoc::Error>(sg.to_vec()) });
+                    if fin.ok().as_deref() != Some(&lph[..]) { out.hit("obj.sign.incremental.finalize-differs-from-libsodium", format!("len {}", len), json!({"op":"obj.IncrementalSigner.finalize","seed":hx(&sd),"msg":hx(&m)})); }
+                    let ver = |sg: &Vec<u8>, pkv: &Vec<u8>| guard(|| { let mut s = IncrementalSigner::new(); feed(&mut s); s.verify(sg, pkv) });
+                    if !ver(&lph.to_vec(), &pk.to_vec()).is_ok() { out.hit("obj.sign.incremental.verify-rejects-libsodium-signature", format!("len {}", len), json!({"len":len})); }
+                    for (what, sg, pkv) in [("signature extended", [lph.to_vec(), vec![0u8]].concat(), pk.to_vec()), ("signature one byte short", lph[..63].to_vec(), pk.to_vec()), ("signature empty", vec![], pk.to_vec()),
+                                            ("public key extended", lph.to_vec(), [pk.to_vec(), vec![0u8]].concat()), ("public key one byte short", lph.to_vec(), pk[..31].to_vec()),
+                                            ("signature bit", { let mut x = lph.to_vec(); x[5] ^= 4; x }, pk.to_vec())] {
+                        let r = ver(&sg, &pkv);
+                        let rp = json!({"op":"obj.IncrementalSigner.verify","sig":hx(&sg),"pk":hx(&pkv),"msg":hx(&m),"what":what});
+                        if r.is_ok() { out.hit("obj.sign.incremental.verify-accepts-wrong-length-or-changed", format!("{} (len {})", what, len), rp.clone()); }
+                        if r.is_panic() { out.hit("obj.sign.incremental.verify-panics", format!("{} (len {})", what, len), rp.clone()); }
+                    }
+                }
                 if model_sign > 0 && len == 9 { model_sign -= 1; out.case("sign.ph", &[Tok::L(vec![b(chunks[0]), b(chunks[1])]), b(&sk)], &ph.map(|s| vec![b(&s)]), true); }
             }
             // single-bit mutations of message, signature, public key (short messages)
